@@ -49,13 +49,33 @@ class MapSpec(H.Spec):
 
     def roots(self):
         # an empty map, and maps built by the constructor from initial content (= the same item stores, one after the other)
-        return ['SortableDict', 'MetadataObject'] + ['SortableDict:' + k for k in sorted(self.INITIALS)] + ['MetadataObject:pairs-with-repeated-key']
+        return ['SortableDict', 'MetadataObject'] + ['SortableDict:' + k for k in sorted(self.INITIALS)] + ['MetadataObject:pairs-with-repeated-key'] + \
+            ['SortableDict:pairs:deepcopy', 'SortableDict:pairs:copy', 'MetadataObject:pairs:deepcopy', 'SortableDict:pairs:pickle']
 
     def fresh(self, root):
         cls, _, init = root.partition(':')
+        init, _, how = init.partition(':')
         make = self.SD if cls == 'SortableDict' else self.MO
         if not init:
             return make(), Model()
+        if how:
+            # a copy of a map is a map of its own: the original is kept alive, re-ordered afterwards, and must not matter
+            import copy
+            import pickle
+            orig, m = self.fresh(cls + ':' + init)
+            if how == 'deepcopy':
+                d = copy.deepcopy(orig)
+            elif how == 'copy':
+                d = make(list(orig.items()))          # a rebuilt copy (copy.copy of this class is documented nowhere)
+            else:
+                d = pickle.loads(pickle.dumps(orig))
+            orig.reverse()
+            orig['zz_only_in_the_original'] = 1
+            self._keep = getattr(self, '_keep', [])
+            self._keep.append(orig)
+            del self._keep[:-50]
+            m.how = how
+            return d, m
         src = self.INITIALS[init]
         m = Model()
         for k, v in (src.items() if isinstance(src, dict) else src):
@@ -72,6 +92,11 @@ class MapSpec(H.Spec):
         return self.hs.MARKER if v == 'M' else v
 
     def ops(self, impl, model):
+        if getattr(model, 'how', None):
+            # a copy: the operations that read or rewrite the order, and a few stores (the full alphabet runs on the originals)
+            ops = [('sort',), ('sort_rev',), ('reverse',), ('read_index', 'a'), ('read_index', 'b'), ('read_at', 0), ('set', 'c', 1), ('del', 'a'), ('del', 'b'),
+                   ('add_pos', 'c', 2, 'a', True, True), ('add_pos', 'a', 2, 'b', False, True), ('add_index', 'b', 2, 0, False, True), ('pop_at', 0)]
+            return [o for o in ops]
         ops = []
         vals = mvals(self.quick)
         n = len(model.p)
@@ -404,8 +429,28 @@ class MapSpec(H.Spec):
         values = getattr(d, '_values', None)
         hidden = ('unknown', id(d)) if order is None or values is None else (tuple(order), tuple(sorted((k, repr(v)) for k, v in values.items())))
         # any further instance attribute (a position cache, a memo) is part of the state: two histories that differ in it are not merged
-        hidden = hidden + tuple((k, repr(v)[:200]) for k, v in sorted(vars(d).items()) if k not in ('_order', '_values', '_validate_fn'))
-        return (type(d).__name__, tuple((k, repr(v)) for k, v in m.p), hidden)
+        hidden = hidden + tuple((k, self.describe(d, v)) for k, v in sorted(vars(d).items()) if k not in ('_order', '_values', '_validate_fn'))
+        return (type(d).__name__, getattr(m, 'how', None), tuple((k, repr(v)) for k, v in m.p), hidden)
+
+
+def _describe(d, v):
+    """Canonical description of an extra instance attribute: plain data by value; a callable by its name and by WHOSE it is (a bound
+    method of one of the map's own attributes, of the map itself, or of a foreign object) — never by address."""
+    if callable(v):
+        owner = getattr(v, '__self__', None)
+        whose = 'unbound'
+        if owner is d:
+            whose = 'self'
+        elif owner is not None:
+            whose = 'foreign'
+            for k, x in vars(d).items():
+                if x is owner:
+                    whose = 'own.' + k
+        return ('callable', getattr(v, '__name__', type(v).__name__), whose)
+    return repr(v)[:200]
+
+
+MapSpec.describe = staticmethod(_describe)
 
 
 class QuickSpec(MapSpec):
@@ -418,7 +463,10 @@ class ThoroughSpec(MapSpec):
 
 def run(ctx):
     factory = QuickSpec if ctx.quick else ThoroughSpec
-    st, info = H.bfs(factory, depth=(6 if ctx.quick else 8), seed=ctx.seed, jobs=ctx.jobs)
+    st, info = H.bfs(factory, depth=(6 if ctx.quick else 8), seed=ctx.seed, jobs=ctx.jobs, max_states=400000)
+    if info.get('capped'):
+        raise HarnessError('more than 400000 distinct states: the implementation carries state the canonical key cannot merge '
+                           '(40 times the size of the space on the pinned tree) - aborted before memory runs out')
     st.outcomes |= set(list(st.inputs)[:1000])
     return {
         'stats': st, 'exhaustive': bool(info['fixpoint']),
